@@ -447,6 +447,10 @@ def process_(job):
             snap[ti] = {tn: (list(lst._table[tn].row_name), lst._table[tn]._data.copy()) for tn in lst.table_names}
             for tn in lst.table_names:
                 check_table(lst, tn, ti, times[ti], lines, fail, stats, res, job)
+            if job.get('table_ops', True):
+                _CAPTURE_ON[0] = False
+                try: check_table_ops(T, lst, ti, snap[ti], fail, stats)
+                finally: _CAPTURE_ON[0] = True
         cases_from_capture(list(_CAP), seen, res['cases'], stats, only)
         del _CAP[:]
         table_names = list(lst.table_names)
@@ -600,6 +604,103 @@ def check_routes(lst, snap, times, fail, stats, job):
                      {'time': at, 'route': ops_j, 'table': tn, 'cell': cell},
                      'after %s the reader is at index %d and %s%s = %r' % (ops_j, at, tn, cell, got),
                      'the number printed for that result time (read after `index = %d`): %r' % (at, want))
+
+
+def _same_arr(a, b):
+    return a.shape == b.shape and bool(np.array_equal(a, b, equal_nan=True))
+
+
+def _first_diff(a, b):
+    if a.shape != b.shape: return None
+    d = np.argwhere(~((a == b) | (np.isnan(a) & np.isnan(b))))
+    return [int(d[0][0]), int(d[0][1])] if len(d) else None
+
+
+def check_table_ops(T, lst, ti, snapti, fail, stats):
+    """The exposed tables must hold the printed numbers whatever READ-ONLY public operations the caller has performed on
+    them: after table arithmetic (the documented `change = last.element - first.element`), row / column / name access,
+    iteration, rows_matching, repr and DataFrame export, and WITHOUT re-reading the results, every exposed table is
+    compared with what it held when check_table compared it with the printed numbers.  Arithmetic must also leave the
+    other operand unchanged, return the element-wise sum / difference, and return a table that does not share its
+    cells with an operand (writing into the result must not change an operand)."""
+    for tn in lst.table_names:
+        Tb = lst._table[tn]
+        if tn not in snapti: continue
+        rows0, data0 = snapti[tn]
+        nr, nc = data0.shape
+        stats['table_ops_tables'] = stats.get('table_ops_tables', 0) + 1
+        def unchanged(op):
+            """the exposed table after the operation, by its data and by public access (row index, row name, column name)"""
+            now = lst._table[tn]
+            ok = now is Tb and list(now.row_name) == rows0 and _same_arr(now._data, data0)
+            cell = None
+            if ok and nr:
+                for i in sorted(set([0, nr // 2, nr - 1])):
+                    row = now[i]
+                    vals = np.array([row[c] for c in now.column_name], dtype=float) if len(set(now.column_name)) == nc else data0[i]
+                    if row['key'] != rows0[i] or not _same_arr(vals.reshape(1, -1), data0[i].reshape(1, -1)): ok = False; cell = [i, None]
+                for j, c in enumerate(now.column_name):
+                    if now.column_name.index(c) == j and not _same_arr(np.asarray(now[c], dtype=float).reshape(-1, 1), data0[:, j].reshape(-1, 1)):
+                        ok = False; cell = [None, c]
+            if ok: return True
+            if cell is None and now._data.shape == data0.shape:
+                d = _first_diff(now._data, data0)
+                if d: cell = [rows0[d[0]] if d[0] < len(rows0) else d[0], now.column_name[d[1]], float(now._data[d[0], d[1]]), float(data0[d[0], d[1]])]
+            fail('table-operations', 'listingtable:%s:exposed-table-modified' % op.split(':')[0], {'time': ti, 'table': tn, 'operation': op, 'cell': cell},
+                 'after %s (no index / time / step change) the exposed %s table differs from the printed numbers at %s' % (op, tn, cell),
+                 'a read-only public operation leaves the exposed table holding the printed numbers')
+            Tb._data[...] = data0                          # so that the next operation is judged on its own
+            return False
+        # an independent second operand built through the public constructor and public writes
+        B = T.listingtable(list(Tb.column_name), list(Tb.row_name), num_keys=Tb.num_keys, allow_reverse_keys=Tb.allow_reverse_keys)
+        bdata = (np.arange(nr, dtype=float).reshape(-1, 1) * 1000.0 + np.arange(nc, dtype=float).reshape(1, -1) + 0.5) if nr and nc else np.zeros((nr, nc))
+        for i in range(nr): B[i] = bdata[i]
+        with np.errstate(all='ignore'):
+            ariths = [('arithmetic:exposed - other', lambda: Tb - B, data0 - bdata, B, bdata),
+                      ('arithmetic:exposed + other', lambda: Tb + B, data0 + bdata, B, bdata),
+                      ('arithmetic:other - exposed', lambda: B - Tb, bdata - data0, B, bdata),
+                      ('arithmetic:other + exposed', lambda: B + Tb, bdata + data0, B, bdata),
+                      ('arithmetic:exposed - exposed', lambda: Tb - Tb, data0 - data0, None, None),
+                      ('arithmetic:exposed + exposed', lambda: Tb + Tb, data0 + data0, None, None)]
+            for op, f, want, other, odata in ariths:
+                stats['table_ops'] = stats.get('table_ops', 0) + 1
+                _STAGE[0] = '%s on table %s at index %d' % (op, tn, ti)
+                try: r = f()
+                except Exception as e:
+                    fail('table-operations', 'listingtable:arithmetic:raises:' + type(e).__name__, {'time': ti, 'table': tn, 'operation': op}, repr(e)[:200],
+                         'tables with the same rows and columns can be added and subtracted')
+                    continue
+                ok = unchanged(op)
+                if other is not None and not _same_arr(other._data, odata):
+                    fail('table-operations', 'listingtable:arithmetic:operand-modified', {'time': ti, 'table': tn, 'operation': op, 'cell': _first_diff(other._data, odata)},
+                         'the other operand changed', 'table arithmetic does not modify its operands')
+                    other._data[...] = odata
+                if list(r.row_name) != rows0 or list(r.column_name) != list(Tb.column_name) or not _same_arr(np.asarray(r._data, dtype=float), want):
+                    if ok:
+                        fail('table-operations', 'listingtable:arithmetic:result-wrong', {'time': ti, 'table': tn, 'operation': op, 'cell': _first_diff(np.asarray(r._data, dtype=float), want)},
+                             'result differs from the element-wise value', 'same rows and columns, each cell the sum / difference of the operands\' cells')
+                elif nr and nc:
+                    for c in set(r.column_name): r[c][:] = SENTINEL       # the result is the caller's: writing into it ...
+                    unchanged(op + ', then writing into the result')     # ... must not reach the exposed table
+                    if other is not None and not _same_arr(other._data, odata):
+                        fail('table-operations', 'listingtable:arithmetic:result-shares-cells-with-operand', {'time': ti, 'table': tn, 'operation': op},
+                             'writing into the result changed the other operand', 'the result is a table of its own')
+                        other._data[...] = odata
+        # access, iteration, matching, printing, export
+        reads = [('access:rows by index, rows by name, columns by name', lambda: ([Tb[i] for i in range(0, nr, max(1, nr // 50))],
+                                                                                   [Tb[k] for k in rows0[::max(1, nr // 50)]], [Tb[c] for c in Tb.column_name])),
+                 ('access:iteration over the table', (lambda: [row for row in Tb]) if nr <= 20000 else None),
+                 ('access:rows_matching', (lambda: (Tb.rows_matching('.'), Tb.rows_matching('.', match_any=True))) if nr <= 20000 else None),
+                 ('access:repr, num_rows, num_columns', lambda: (repr(Tb), Tb.num_rows, Tb.num_columns)),
+                 ('access:DataFrame', lambda: Tb.DataFrame)]
+        for op, f in reads:
+            if f is None: continue
+            stats['table_ops'] = stats.get('table_ops', 0) + 1
+            _STAGE[0] = '%s on table %s at index %d' % (op, tn, ti)
+            try: f()
+            except ImportError: continue                      # pandas not installed
+            except Exception: pass                            # what these return or raise is not part of this statement
+            unchanged(op)
 
 
 def absent_at_first(job, ptabs, upto=None):
